@@ -175,7 +175,10 @@ class UdpInverterProtocol(InverterProtocol, asyncio.DatagramProtocol):
         """On error received"""
         logger.debug("Received error: %s", exc)
         self._retry = 0
-        self.response_future.set_exception(exc)
+        try:
+            self.response_future.set_exception(exc)
+        except asyncio.InvalidStateError:
+            logger.debug("Response already handled, error ignored: %s", exc)
         self._close_transport()
 
     async def send_request(self, command: ProtocolCommand) -> Future:
@@ -326,7 +329,10 @@ class TcpInverterProtocol(InverterProtocol, asyncio.Protocol):
         """On error received"""
         logger.debug("Received error: %s", exc)
         self._retry = 0
-        self.response_future.set_exception(exc)
+        try:
+            self.response_future.set_exception(exc)
+        except asyncio.InvalidStateError:
+            logger.debug("Response already handled, error ignored: %s", exc)
         self._close_transport()
 
     async def send_request(self, command: ProtocolCommand) -> Future:
